@@ -195,6 +195,7 @@ class Evaluator:
         self._bind_memo_for, self._bind_memo = None, {}
         self.assumptions = {}  # boolean term -> bool: mode facts fixed by the obligation (E4)
         self.bind = {}  # term -> concrete representative of its region (E4)
+        self.objects = {}  # term -> {attribute: value}: objects whose attributes the scenario under analysis fixes (vars() / getattr())
         self.assume_fn = None  # optional callable(condition term) -> True / False / None: scripted outcome of environment predicates
 
     def decide(self, c):
@@ -482,6 +483,13 @@ class Evaluator:
                 recv = self.expr(recv_node, fr)
                 args = [self.expr(a, fr) for a in e.args]
                 kw = {k.arg: self.expr(k.value, fr) for k in e.keywords if k.arg}
+                for k in e.keywords:
+                    if k.arg is None:
+                        v = self.expr(k.value, fr)
+                        if isinstance(v, dict) and all(isinstance(x, str) for x in v):
+                            kw.update(v)
+                        else:
+                            kw["**"] = v
                 fr.summary.calls.append(("method:" + meth, [recv] + args, kw, e, tuple(fr.guard), tuple(fr.facts), dict(fr.iters)))
                 if meth == "append" and isinstance(recv, list):
                     recv.append(args[0])
@@ -935,6 +943,10 @@ class Evaluator:
             return T("ext", (base.args[0] + "." + attr,))
         if isinstance(base, T) and base.op == "ext":
             return T("ext", (base.args[0] + "." + attr,))
+        if self.objects and isinstance(base, T):
+            for k, d in self.objects.items():
+                if tm.veq(k, base):  # an object whose attribute dictionary the scenario under analysis fixes
+                    return d[attr] if attr in d else T("raise", ("AttributeError",))
         return T("attr", (tm._fz(base), attr))
 
     def e_JoinedStr(self, e, fr):
@@ -1474,6 +1486,9 @@ class Evaluator:
         if isinstance(recv, T) and recv.op == "param" and recv.args[0] == "self" and fr.fi is not None and fr.fi.cls:
             meths = fr.fi.module.classes.get(fr.fi.cls, {})
             if meth in meths:
+                decos = {ast.unparse(d) for d in meths[meth].node.decorator_list}
+                if "staticmethod" in decos:
+                    return self.call_fn(meths[meth], list(pos), kw, e, fr)
                 return self.call_fn(meths[meth], [recv] + pos, kw, e, fr)
         return tm.app("m:" + meth, [recv] + pos, tuple(sorted(kw.items())))
 
@@ -1650,6 +1665,10 @@ class Evaluator:
             return T("typeof", (a0,))
         if n == "isinstance":
             return T("isinstance", (tm._fz(a0), tm._fz(pos[1])), tm.BOOL)
+        if n == "vars" and len(pos) == 1 and self.objects and isinstance(a0, T):
+            for k, d in self.objects.items():
+                if tm.veq(k, a0):
+                    return dict(d)
         if n == "getattr":
             if isinstance(pos[1], str):
                 v = self.getattr_value(a0, pos[1])
